@@ -260,7 +260,7 @@ pub fn spec(id: &str) -> Option<PropSpec> {
         "C19" => PropSpec {
             id: "C19",
             level: "exploration",
-            families: vec![(Family::C19, 65), (Family::C19W, 20), (Family::C20, 15)],
+            families: vec![(Family::C19, 58), (Family::C19W, 17), (Family::C19C, 12), (Family::C20, 13)],
             quick_runs: 26_000,
             thorough_runs: 2_000_000,
             rule: "server roles, plain v3 / v5 server or the combined (version sniffing) server in front of both. First packet: a valid CONNECT (keep-alive 0 / 10 / 60000), any other packet type, CONNECT with an unknown protocol name (MQTX, MQIsdp, mqtt, empty) or level (0, 3, 6, 255) or the reserved connect flag, handshake service refusing (every refusal code) / failing / answering slowly (gated); 1..2 small publishes are pipelined right behind it; the stream is delivered in one piece, byte at a time or in random cuts. After an accepted CONNECT one limit is probed at and just beyond its negotiated value: inbound maximum packet size (configured, or MQTT 5 handshake override), maximum QoS (configured / override), topic alias maximum (configured / override), receive maximum (configured / override, handlers held). Oracle: no publish/protocol handler before the handshake service accepted the CONNECT, none at all otherwise; invalid first packets never reach the handshake service and end the connection; a refusal is preceded by a CONNACK with the refusing code; the CONNECT is handled by the service of its protocol level with its fields intact and pipelined packets are handled after acceptance; MQTT 5 CONNACK announces receive maximum, maximum QoS, topic alias maximum, maximum packet size and an imposed keep-alive as in force; the probe at the limit is handled, the one beyond it is refused with a protocol error. A quarter of the runs use C05's outbound workload on server roles with every combination of configured max_send, handshake override and the peer's Receive Maximum: QoS1/2 publishes on the wire and not finally acknowledged never exceed min(configured or overridden, peer's Receive Maximum). A seventh of the runs are C20's keep-alive scenarios on the simulated clock (client values 1, 2, 3, 6 s and 0; handshake overrides 1..8 s, also imposed on a client that asked for 60 s): the timeout in force is 1.5 times the client's value or exactly the override - never shorter (exact), never more than 2 s longer (timer wheel); distinct = abstract history signature; non-trivial = the first packet was not a plain accepted CONNECT, or a limit probe was delivered",
